@@ -15,21 +15,26 @@ Inductive logop := LOr | LXor | LAnd.
 Inductive quant := QAny | QAll.
 
 (* RhsValue (the inhabited variants) *)
-Inductive rhs := RInt (z : Z) | RBytes (b : bytes) | RIp (a : ip).
+(* BytesFormat: how a byte-string literal was written (part of AST equality and of its JSON form) *)
+Inductive bytes_format := FQuoted | FRaw (hashes : N) | FByte.
 
-Definition rhs_ty (r : rhs) : ty := match r with RInt _ => TInt | RBytes _ => TBytes | RIp _ => TIp end.
+Inductive rhs := RInt (z : Z) | RBytes (b : bytes) (f : bytes_format) | RIp (a : ip).
+
+Definition rhs_ty (r : rhs) : ty := match r with RInt _ => TInt | RBytes _ _ => TBytes | RIp _ => TIp end.
 Definition rhs_value (r : rhs) : value :=
-  match r with RInt z => VInt z | RBytes b => VBytes b | RIp a => VIp a end.
+  match r with RInt z => VInt z | RBytes b _ => VBytes b | RIp a => VIp a end.
 
 (* ComparisonOpExpr *)
 Inductive cmpop :=
 | CIsTrue
 | COrd (op : ordop) (r : rhs)
 | CBitAnd (z : Z)
-| CContains (p : bytes)
+| CContains (p : bytes) (f : bytes_format)
+| CMatches (pat : bytes) (raw : option N)          (* Regex: pattern text, RegexFormat *)
+| CWildcard (strict : bool) (pat : bytes) (f : bytes_format)
 | COneOfInt (l : list range)
 | COneOfIp (l : list ip_item)
-| COneOfBytes (l : list bytes)
+| COneOfBytes (l : list (bytes * bytes_format))
 | CInList (li : nat) (name : bytes).   (* List { index } of the scheme + ListName *)
 
 Inductive lexpr :=
